@@ -15,8 +15,15 @@ CH = lambda xs: [list(x) for x in xs]
 PRE, POST = list("a "), list(" b")
 
 
-def universes(quick):
+NAMES = ["A", "U", "W", "R", "E", "M", "X", "sup", "inf", "bounds", "simulation", "control", "Pr", "under", "strategy", "deadlock", "x", "t1", "AU", "A1", "E_", "int", "const", "imply"]
+
+
+def universes(quick, idlike):
     return [
+        ("names_typed", {"mode": "names", "alphabet": CH(NAMES), "maxlen": 1, "syntax": "new", "typenames": NAMES, "pre": [], "post": [], "idlike": idlike}),
+        ("names_plain", {"mode": "names", "alphabet": CH(NAMES), "maxlen": 2, "syntax": "new", "typenames": [], "pre": [], "post": [], "idlike": idlike}),
+        ("names_old", {"mode": "names", "alphabet": CH(NAMES), "maxlen": 1, "syntax": "old", "typenames": NAMES, "pre": [], "post": [], "idlike": idlike}),
+        ("names_query", {"mode": "names", "alphabet": CH(NAMES), "maxlen": 1, "syntax": "property", "typenames": NAMES, "pre": [], "post": [], "idlike": idlike}),
         ("comment", {"mode": "comment", "alphabet": CH(["*", "/", " ", "\n", "x", ":"]) + [list("EXPECT:")], "maxlen": 4 if quick else 6, "syntax": "new", "typenames": [], "pre": PRE, "post": POST}),
         ("line", {"mode": "line", "alphabet": CH(["*", "/", " ", "x", "\\", "\r", "\t"]) + [list("EXPECT:")], "maxlen": 4 if quick else 5, "syntax": "new", "typenames": [], "pre": PRE, "post": POST}),
         ("layout", {"mode": "layout", "alphabet": CH(["a", "int", "1", "1.5", "+", "++", "<=", "<", "=", "A[]", "A", "[", "]", "-->", "-", "->", "<?", "&&", "&", "\"s\"", "2147483648", "imply", "const", "t"]),
@@ -54,15 +61,22 @@ def run(c, quick, prop):
     env0 = {"LEX_RULES": os.path.join(gen, "lexer_rules.json"), "LEXEMES": os.path.join(gen, "lexemes.json")}
     n_texts = n_rel = drift = 0
     grammar_tokens = set(json.load(open(os.path.join(gen, "lr_tables.json")))["tokens"])
-    for name, params in universes(quick):
+    c.cov["scanner_universes"] = []
+    lr = json.load(open(os.path.join(gen, "lr_tables.json")))
+    idlike = sorted({r["rhs"][0] for r in lr["rules"] if r["lhs"] == "NonTypeId" and len(r["rhs"]) == 1} - {"T_ID"})       # the tokens the grammar re-admits as identifiers
+    if len(idlike) < 5:
+        raise vf.MachineryError("the extracted grammar has no NonTypeId alternatives: %s" % idlike)
+    for name, params in universes(quick, idlike):
+        params.setdefault("idlike", idlike)
         pf = os.path.join(c.run_dir, "lex_%s.json" % name)
         json.dump(params, open(pf, "w"))
         mc = vf.run_tlc("LexMC", "LexMC.cfg", c.run_dir, env=dict(env0, LEX_PARAMS=pf), timeout=3000, xmx="8g", keep_out=False)
-        c.add_tlc("LexMC_" + name, mc, "the scanner of the working tree (extracted rules, flex semantics) on every text of the universe `%s`: Total, Offsets, CommentOpaque, LineOpaque, LayoutFree" % name)
+        c.add_tlc("LexMC_" + name, mc, "the scanner of the working tree (extracted rules, flex semantics) on every text of the universe `%s`: Total, Offsets, CommentOpaque, LineOpaque, LayoutFree, NamesAreNames" % name)
         if mc.violated:
             c.finding("%s:scanner:%s:%s" % (prop.lower(), name, mc.violated), "on the scanner rules of the working tree, %s fails in the universe `%s` (Lex.tla: longest match over the rules of lexer.l)" % (mc.violated, name),
                       {"entry": "LexMC", "universe": name, "params": params, "invariant": mc.violated, "tlc_trace_tail": mc.out[-2500:] if getattr(mc, "out", None) else ""})
         emitted = mc.emitted
+        c.cov["scanner_universes"].append({"name": name, "texts": len(emitted)})
         if not emitted:
             raise vf.MachineryError("LexMC produced no texts for %s" % name)
         # the real scanner on every text (and, for the relations, on the reference texts)
